@@ -43,7 +43,8 @@ NULL = ("0.0.0.0", 0)
 FIELD_KINDS = ["flip_ident", "flip_key", "flip_auth", "flip_cands", "flip_cid", "subst_eph", "fake_responder",
                "zero_key", "short_key", "ident_other"]
 TIME_KINDS = ["duplicate", "replay_retry", "late_removed", "slow_candidate"]
-KINDS = ["none"] + FIELD_KINDS + TIME_KINDS + ["cid_swap", "reorder", "garbage_cands", "dup_created"]
+KINDS = ["none"] + FIELD_KINDS + TIME_KINDS + ["cid_swap", "reorder", "garbage_cands", "dup_created",
+                                                     "relabel_as_created", "relabel_as_extended"]
 
 
 def z(n):
@@ -469,7 +470,10 @@ class Net(TunnelNet):
                 except Exception:   # noqa: an attacker's ill-formed cell may fail to be sent at all
                     if p is payload:
                         raise
+            if n == "ExtendPayload" and ov is net.origin and net.attack is not None:
+                net.attack.after_extend(net, payload)
         ov.send_cell = send_cell
+        ov._c08_raw_send_cell = orig_send_cell
 
         orig_res = ov.remove_exit_socket
 
@@ -804,12 +808,53 @@ class Attack:
             return [a, dict(a)]          # the relay in front of the new hop receives the created twice
         return [a]
 
+    # -- the originator has just sent the extend of exchange k: earlier answers of the SAME circuit (hop 1's
+    # created, earlier extendeds) come back, re-labelled with the pending identifier, as a plaintext created
+    # (from an outsider's address, or from the last established hop) or as an extended (from the last hop)
+    def after_extend(self, net, extend):
+        from ipv8.messaging.anonymization.payload import CreatedPayload, ExtendedPayload
+        c = self.circuit
+        if self.kind not in ("relabel_as_created", "relabel_as_extended") or self.fired:
+            return
+        if extend.circuit_id != c.circuit_id or self.k_now() != self.k or not c._hops:
+            return
+        earlier = [r.payload for _, cc, _, r, _ in net.hop_adds if cc is c and r is not None and r.payload is not None]
+        if not earlier:
+            return
+        o = net.origin
+        last = net.by_key(c._hops[-1].peer.public_key.key_to_bin())
+        pid = extend.identifier
+        for old in earlier:
+            key, auth, cands = bytes(old.key), bytes(old.auth), bytes(old.candidates_enc)
+            if self.kind == "relabel_as_created":
+                if self.pos == "network" or last is None:
+                    body = struct.pack("!HH", pid, len(key)) + key + auth + cands
+                    data = o.get_prefix() + b"\x00" + struct.pack("!I??", c.circuit_id, True, False) + b"\x03" + body
+                    net.net.queue.append((("10.9.9.9", 999), tuple(o.my_peer.address), data))
+                    who = "wire"
+                else:
+                    last._c08_raw_send_cell(o.my_peer.address, CreatedPayload(c.circuit_id, pid, key, auth, cands))
+                    who = last._verif_name
+            else:
+                if last is None:
+                    return
+                want = keybytes(c._hops[-1].keys)
+                es = [(cid, e) for cid, e in last.exit_sockets.items() if keybytes(e.hop.keys) == want]
+                if not es:
+                    return
+                cid_local, e = es[0]
+                last._c08_raw_send_cell(e.hop.address, ExtendedPayload(cid_local, pid, key, auth, cands))
+                who = last._verif_name
+            self.fired += 1
+            self.log.append((who, "relabelled " + type(old).__name__, self.kind))
+
     # -- a node sends a created / extended
     def on_send_cell(self, net, ov, target, payload):
         from ipv8.messaging.anonymization.payload import CreatedPayload, ExtendedPayload
         n = type(payload).__name__
         c = self.circuit
-        if self.pos == "network" or self.kind in ("none", "cid_swap", "reorder", "dup_created"):
+        if self.pos == "network" or self.kind in ("none", "cid_swap", "reorder", "dup_created", "relabel_as_created",
+                                                  "relabel_as_extended"):
             return [payload]
         if self.fired and self.kind not in ("duplicate",):
             return [payload]
@@ -859,7 +904,7 @@ class Attack:
     # -- the wire
     def on_wire(self, net, src, dst, data):
         c = self.circuit
-        if self.kind == "none" or len(data) < 30 or data[22] != 0:
+        if self.kind in ("none", "relabel_as_created", "relabel_as_extended") or len(data) < 30 or data[22] != 0:
             return [(dst, data)]
         cid, plaintext = struct.unpack_from("!I?", data, 23)
         origin_addr = net.origin.my_peer.address
@@ -964,6 +1009,11 @@ def specs(ctx):
                 if kind == "dup_created" and not (pos == "network" and k >= 2):
                     continue
                 if kind == "slow_candidate" and not (pos == "network" and hops >= 2 and k in (1, hops)):
+                    continue
+                relay_role = (pos == "first" and k == 2) or (pos == "middle" and k == 3)
+                if kind == "relabel_as_created" and not ((pos == "network" and k >= 2) or relay_role):
+                    continue
+                if kind == "relabel_as_extended" and not relay_role:
                     continue
                 for s in seeds:
                     out.append((hops, pos, k, kind, s))
@@ -1206,7 +1256,7 @@ def oracle(net, atk, info, report):
                 report("relay/extended-fields-altered", "extended does not carry the pending extend's ids and the created's key material (%s)" % spec)
     # (5) honest runs complete, with the selected peers in order, and carry data
     c1 = info.get("c1")
-    if spec[3] in ("none", "reorder", "duplicate", "dup_created") and c1 is not None:
+    if spec[3] in ("none", "reorder", "duplicate", "dup_created", "relabel_as_created", "relabel_as_extended") and c1 is not None:
         if info["state"] != ("READY", spec[0]):
             report("honest/not-ready", "circuit not READY after an honest build (%s, state %s, %d hops)" % (spec, *info["state"]))
         else:
